@@ -87,6 +87,9 @@ func runCase(in input, emit func(string)) (res childResult) {
 			panic(p)
 		}
 	}()
+	if in.K == "stress" {
+		return runStress(in, emit)
+	}
 	var setup setupT
 	var body func(w *world)
 	switch in.K {
@@ -341,6 +344,19 @@ func gen(r *coqfmt.Rng, n int, tier string) []json.RawMessage {
 	var out []json.RawMessage
 	for _, name := range scriptOrder {
 		out = append(out, explicit(input{K: "script", Name: name}))
+	}
+	// hook-free stress runs (real parallelism; judged by the direct oracles only)
+	nstress := map[string]int{"C04": 3, "C05": 8, "C06": 3, "C07": 3}[focus]
+	if tier == "thorough" {
+		nstress *= 10
+	}
+	for i := 0; i < nstress; i++ {
+		in := input{K: "stress", Mode: "count", N: 250, Seed: r.U64()}
+		if (focus == "C04" || focus == "C07") && i%2 == 0 || focus == "C05" && i%4 == 3 {
+			in.Mode = "reject"
+		}
+		b, _ := json.Marshal(in)
+		out = append(out, b)
 	}
 	for i := 0; i < n; i++ {
 		in := input{K: "walk", Seed: r.U64(), Focus: focus, Mode: "normal"}
